@@ -818,6 +818,34 @@ func c14Get(m *c14Maps, p []V) V {
 	return Ls(Bo(ok), I(hits))
 }
 
+// kind 13: hostile inputs decoded concurrently.  Every goroutine pushes malformed values with
+// unknown / out-of-range type tags (incl. >= 0x80) through the in-memory decoders; each call must
+// return an error (never panic, never succeed) and the error must be a protocol exception.  The
+// point is the concurrent error path: anything these paths share between goroutines (a lazily
+// built table, a cache of error values) shows up as a data race or a crash.
+func c14Hostile(p []V) V {
+	ok, n := true, 0
+	for _, it := range AsList(p[0]) {
+		a := AsList(it)
+		t, b := byte(AsInt(a[0])), AsBytes(a[1])
+		_, err := thrift.Binary.Skip(b, thrift.TType(t))
+		_, isp := err.(*thrift.ProtocolException)
+		ok = ok && err != nil && isp
+		d := thrift.NewBytesSkipDecoder(b)
+		_, err2 := d.Next(thrift.TType(t))
+		d.Release()
+		ok = ok && err2 != nil
+		// the same bytes as an unknown field of a shipped struct
+		fld := append([]byte{t, 0x7f, 0x01}, b...)
+		if t != 0 { // (type 0 as a field header is STOP: a complete empty struct)
+			_, err3 := thrift.NewApplicationException(0, "").FastRead(fld)
+			ok = ok && err3 != nil
+		}
+		n++
+	}
+	return Ls(Bo(ok), I(n))
+}
+
 func c14Cycle(m *c14Maps, c V) (out V) {
 	defer func() {
 		if r := recover(); r != nil {
@@ -845,6 +873,8 @@ func c14Cycle(m *c14Maps, c V) (out V) {
 		return c14BigSkip(p)
 	case 11, 12:
 		return c14Retain(kind, p, AsList(a[2]))
+	case 13:
+		return c14Hostile(p)
 	}
 	panic("c14: bad cycle kind")
 }
@@ -904,12 +934,8 @@ func c14Run(in V) V {
 	mp := AsList(a[3])
 	m := c14MkMaps(AsInt(mp[0]), AsInt(mp[1]))
 	resets := c14Resets()
-	// sequential reference
-	ref := make([]string, G)
-	for i := 0; i < G; i++ {
-		ref[i] = Show(c14Script(m, scripts[i]))
-	}
-	// concurrent phase
+	// concurrent phase FIRST (so that whatever the library builds lazily on first use — tables,
+	// caches of error values — is built under concurrency), sequential reference afterwards
 	first := make([]V, G)
 	repseq := make([]bool, G)
 	var wg sync.WaitGroup
@@ -934,6 +960,11 @@ func c14Run(in V) V {
 	}
 	close(start)
 	wg.Wait()
+	// sequential reference: the same scripts, one after the other
+	ref := make([]string, G)
+	for i := 0; i < G; i++ {
+		ref[i] = Show(c14Script(m, scripts[i]))
+	}
 	seqeq, reps := true, true
 	var outs VL = VL{}
 	for i := 0; i < G; i++ {
@@ -1104,6 +1135,25 @@ func genC14(g *Gen) {
 		}
 		return Ls(I(kind), Ls(parts, items), Ls())
 	}
+	hostile := func() V {
+		var items VL
+		for j := 2 + g.R.Intn(5); j > 0; j-- {
+			// an unknown type tag: 0, 1, 5, 7, 9, 16..255; a few bytes follow
+			var t int
+			switch g.R.Intn(3) {
+			case 0:
+				t = []int{0, 1, 5, 7, 9}[g.R.Intn(5)]
+			case 1:
+				t = 16 + g.R.Intn(112)
+			default:
+				t = 128 + g.R.Intn(128)
+			}
+			b := make([]byte, 1+g.R.Intn(6))
+			g.R.Read(b)
+			items = append(items, Ls(I(t), Bs(b)))
+		}
+		return Ls(I(13), Ls(items), Ls())
+	}
 	nkeys := 300
 	gets := func() V {
 		var ix VL = VL{}
@@ -1129,6 +1179,10 @@ func genC14(g *Gen) {
 		nbig := 0
 		for k := 0; k < G; k++ {
 			var s VL
+			if i%7 == 3 { // every goroutine decodes hostile inputs at the same time (shared error paths)
+				scripts = append(scripts, VL{hostile(), gets(), hostile()})
+				continue
+			}
 			for j := 1 + g.R.Intn(4); j > 0; j-- {
 				sel := g.R.Intn(12)
 				if focus {
@@ -1167,6 +1221,8 @@ func genC14(g *Gen) {
 					s = append(s, skipd(8))
 				case 4:
 					s = append(s, gets())
+				case 5:
+					s = append(s, hostile())
 				default:
 					s = append(s, lib[g.R.Intn(len(lib))])
 				}
